@@ -71,14 +71,14 @@ CLAIMS = {
    note=TB + "checks/ref/mldsa.py implements Algorithms 9-21 bit by bit (IntegerToBits / BitsToBytes), independent of the crate's streaming accumulators.",
    tech="Lean 4 proof of decoder range facts + kernel-evaluated reduced-parameter tables + differential execution against a bit-level reference"),
  'C09': dict(cat='proof', ref='DESIGN 5 C09',
-   text="Partial proof + differential execution. Proved in Lean: field provenance of deserialised keys (rho / K / tr are the input slices, pk.tr = H(input)), and every accepted private key has its s1, s2, t0 sections inside the ranges the "
+   text="Partial proof + differential execution. Proved in Lean: **every** byte string of public-key length deserialises successfully in both build modes (no rejection, no overflow, no out-of-bounds in the decoder and the verifier precompute), field provenance of deserialised keys (rho / K / tr are the input slices, pk.tr = H(input)), and every accepted private key has its s1, s2, t0 sections inside the ranges the "
         "serialiser asserts. Not proved: into_bytes . try_from_bytes = id for every input (exact NTT inversion composed with the codecs); decided on every run on all-00 / all-FF / t1 = 1023 / random public keys, private keys with every "
         "coefficient at either range end, and struct-level equality of generated versus round-tripped keys, in both build profiles.",
    note=TB + "struct equality is literal equality of every i32 of every field.",
    tech="Lean 4 proof of field provenance and range facts + byte-exact and struct-exact round trips on extremal and random keys"),
  'C10': dict(cat='proof', ref='DESIGN 5 C10',
    text="Lean theorems for all byte strings (repaired tree): whatever bit_unpack accepts lies in [-a, b]; every private key accepted by sk_decode / expand_private has all s1, s2 coefficients in [-eta, eta] and t0 in [-2^12+1, 2^12], "
-        "which are exactly the ranges sk_encode's self-checks demand. The pinned-tree definition is refuted by kernel evaluation on a concrete accepted field (F1) and the repaired one rejects it. The converse (all-in-range strings are "
+        "which are exactly the ranges sk_encode's self-checks demand; sk_decode never faults on any byte string of private-key length (accumulator-invariant induction over the bytes: temp < 2^bit_index, bit_index < bitlen after each byte, so no shift, subtraction or index can fault). The pinned-tree definition is refuted by kernel evaluation on a concrete accepted field (F1) and the repaired one rejects it. The converse (all-in-range strings are "
         "accepted and re-serialise identically) is decided by execution over every out-of-range field value at the structural position classes, multi-field and random strings.",
    note=TB + "F1 was a genuine defect, repaired in /repo by fix: 1e88610.",
    tech="Lean 4 proof by unfolding the decoder + kernel-evaluated refutation of the pinned definition + per-field differential execution"),
